@@ -44,6 +44,8 @@ SPECS.append({
   H("C13", DB, "Paired2NLPS", "thorough", ["paired", "nonempty"], "same with UseNLP", "relation survives the later stages"),
   H("C13", DB, "Paired2Q", "thorough", ["paired", "nonempty"], "2 commands x 3 shapes, 1-2 query words, two boosted words", "same"),
   H("C13", DB, "Paired2NLPQ", "thorough", ["paired", "nonempty"], "same with UseNLP", "same"),
+  H("C13", "internal/context", "Analyzer1", "both", ["analysed"], "directory with 0-1 of 42 marker / non-marker names; Makefile = 4 symbolic bytes over {newline : # = . tab a b}; package.json with 1 script", "distinct types, generic iff nothing else, finite boosts >= 1, repeatable"),
+  H("C13", "internal/context", "Analyzer2", "thorough", ["analysed"], "2 names, Makefile = 2 symbolic bytes", "same"),
  ],
  "manifest": {"text": "Relational (two-run) bounded symbolic checking with IEEE-754 boost factors as solver variables; monotonicity and candidate-set invariance are asserted per result and decided by cvc5 on sliced path conditions.",
               "note": "Trusted: executor + intrinsics, z3/cvc5, go/ssa. Bounds: 2-3 commands, 1-2 query words, boosts in [1,1e6]."},
